@@ -94,54 +94,138 @@ def cadAxisym (axis : Nat) (ps : List α) : Option (MSurf α) :=
 
 /-- `mcnp2cad[mnemonic]` (+ the three-point form of `normalize_surface`) on a card whose parameter count was accepted -/
 def cadOfRaw (e1 e2 : α) (mn : String) (ps : List α) : Option (MSurf α) :=
-  match mn, ps with
-  | "p", [a, b, c, d] => planeCard a b c d
-  | "p", [x1, y1, z1, x2, y2, z2, x3, y3, z3] =>
-      match planeFromPoints e1 e2 ⟨x1, y1, z1⟩ ⟨x2, y2, z2⟩ ⟨x3, y3, z3⟩ with
-      | some [a, b, c, d] => planeCard a b c d
+  match mn with
+  | "p" =>
+      match ps with
+      | [a, b, c, d] => planeCard a b c d
+      | [x1, y1, z1, x2, y2, z2, x3, y3, z3] =>
+          match planeFromPoints e1 e2 ⟨x1, y1, z1⟩ ⟨x2, y2, z2⟩ ⟨x3, y3, z3⟩ with
+          | some [a, b, c, d] => planeCard a b c d
+          | _ => none
       | _ => none
-  | "px", [d] => some (mkPlane ⟨d, 0, 0⟩ ⟨1, 0, 0⟩)
-  | "py", [d] => some (mkPlane ⟨0, d, 0⟩ ⟨0, 1, 0⟩)
-  | "pz", [d] => some (mkPlane ⟨0, 0, d⟩ ⟨0, 0, 1⟩)
-  | "so", [r] => some (mkSphere 0 0 0 r)
-  | "s", [x, y, z, r] => some (mkSphere x y z r)
-  | "sx", [x, r] => some (mkSphere x 0 0 r)
-  | "sy", [y, r] => some (mkSphere 0 y 0 r)
-  | "sz", [z, r] => some (mkSphere 0 0 z r)
-  | "c/x", [y, z, r] => some (mkCyl 0 y z r 1 0 0)
-  | "c/y", [x, z, r] => some (mkCyl x 0 z r 0 1 0)
-  | "c/z", [x, y, r] => some (mkCyl x y 0 r 0 0 1)
-  | "cx", [r] => some (mkCyl 0 0 0 r 1 0 0)
-  | "cy", [r] => some (mkCyl 0 0 0 r 0 1 0)
-  | "cz", [r] => some (mkCyl 0 0 0 r 0 0 1)
-  | "k/x", [x, y, z, t2] => coneCard t2 (fun tana => mkCone x y z tana 1 0 0 none)
-  | "k/y", [x, y, z, t2] => coneCard t2 (fun tana => mkCone x y z tana 0 1 0 none)
-  | "k/z", [x, y, z, t2] => coneCard t2 (fun tana => mkCone x y z tana 0 0 1 none)
-  | "k/x", [x, y, z, t2, s] => coneCard t2 (fun tana => mkCone x y z tana 1 0 0 (some s))
-  | "k/y", [x, y, z, t2, s] => coneCard t2 (fun tana => mkCone x y z tana 0 1 0 (some s))
-  | "k/z", [x, y, z, t2, s] => coneCard t2 (fun tana => mkCone x y z tana 0 0 1 (some s))
-  | "kx", [x, t2] => coneCard t2 (fun tana => mkCone x 0 0 tana 1 0 0 none)
-  | "ky", [y, t2] => coneCard t2 (fun tana => mkCone 0 y 0 tana 0 1 0 none)
-  | "kz", [z, t2] => coneCard t2 (fun tana => mkCone 0 0 z tana 0 0 1 none)
-  | "kx", [x, t2, s] => coneCard t2 (fun tana => mkCone x 0 0 tana 1 0 0 (some s))
-  | "ky", [y, t2, s] => coneCard t2 (fun tana => mkCone 0 y 0 tana 0 1 0 (some s))
-  | "kz", [z, t2, s] => coneCard t2 (fun tana => mkCone 0 0 z tana 0 0 1 (some s))
-  | "sq", [a, b, c, d, e, f, g, x, y, z] =>
-      some { kind := .sq, pt := V3.zero, ax := V3.zero, compl := [a, b, c, d, e, f, g, x, y, z] }
-  | "gq", [a, b, c, d, e, f, g, h, j, k] =>
-      some { kind := .gq, pt := V3.zero, ax := V3.zero, compl := [a, b, c, d, e, f, g, h, j, k] }
-  | "tx", [x, y, z, r1, r2] => some (mkTorus x y z 1 0 0 r1 r2 r2)
-  | "ty", [x, y, z, r1, r2] => some (mkTorus x y z 0 1 0 r1 r2 r2)
-  | "tz", [x, y, z, r1, r2] => some (mkTorus x y z 0 0 1 r1 r2 r2)
-  | "tx", [x, y, z, r1, r2, r3] => some (mkTorus x y z 1 0 0 r1 r2 r3)
-  | "ty", [x, y, z, r1, r2, r3] => some (mkTorus x y z 0 1 0 r1 r2 r3)
-  | "tz", [x, y, z, r1, r2, r3] => some (mkTorus x y z 0 0 1 r1 r2 r3)
-  | "c", [x, y, z, r, a, b, c] => some (mkCyl x y z r a b c)          -- generic forms used by macrobody facets
-  | "k", [x, y, z, tana, a, b, c] => some (mkCone x y z tana a b c none)
-  | "x", ps => cadAxisym 0 ps
-  | "y", ps => cadAxisym 1 ps
-  | "z", ps => cadAxisym 2 ps
-  | _, _ => none
+  | "px" =>
+      match ps with
+      | [d] => some (mkPlane ⟨d, 0, 0⟩ ⟨1, 0, 0⟩)
+      | _ => none
+  | "py" =>
+      match ps with
+      | [d] => some (mkPlane ⟨0, d, 0⟩ ⟨0, 1, 0⟩)
+      | _ => none
+  | "pz" =>
+      match ps with
+      | [d] => some (mkPlane ⟨0, 0, d⟩ ⟨0, 0, 1⟩)
+      | _ => none
+  | "so" =>
+      match ps with
+      | [r] => some (mkSphere 0 0 0 r)
+      | _ => none
+  | "s" =>
+      match ps with
+      | [x, y, z, r] => some (mkSphere x y z r)
+      | _ => none
+  | "sx" =>
+      match ps with
+      | [x, r] => some (mkSphere x 0 0 r)
+      | _ => none
+  | "sy" =>
+      match ps with
+      | [y, r] => some (mkSphere 0 y 0 r)
+      | _ => none
+  | "sz" =>
+      match ps with
+      | [z, r] => some (mkSphere 0 0 z r)
+      | _ => none
+  | "c/x" =>
+      match ps with
+      | [y, z, r] => some (mkCyl 0 y z r 1 0 0)
+      | _ => none
+  | "c/y" =>
+      match ps with
+      | [x, z, r] => some (mkCyl x 0 z r 0 1 0)
+      | _ => none
+  | "c/z" =>
+      match ps with
+      | [x, y, r] => some (mkCyl x y 0 r 0 0 1)
+      | _ => none
+  | "cx" =>
+      match ps with
+      | [r] => some (mkCyl 0 0 0 r 1 0 0)
+      | _ => none
+  | "cy" =>
+      match ps with
+      | [r] => some (mkCyl 0 0 0 r 0 1 0)
+      | _ => none
+  | "cz" =>
+      match ps with
+      | [r] => some (mkCyl 0 0 0 r 0 0 1)
+      | _ => none
+  | "k/x" =>
+      match ps with
+      | [x, y, z, t2] => coneCard t2 (fun tana => mkCone x y z tana 1 0 0 none)
+      | [x, y, z, t2, s] => coneCard t2 (fun tana => mkCone x y z tana 1 0 0 (some s))
+      | _ => none
+  | "k/y" =>
+      match ps with
+      | [x, y, z, t2] => coneCard t2 (fun tana => mkCone x y z tana 0 1 0 none)
+      | [x, y, z, t2, s] => coneCard t2 (fun tana => mkCone x y z tana 0 1 0 (some s))
+      | _ => none
+  | "k/z" =>
+      match ps with
+      | [x, y, z, t2] => coneCard t2 (fun tana => mkCone x y z tana 0 0 1 none)
+      | [x, y, z, t2, s] => coneCard t2 (fun tana => mkCone x y z tana 0 0 1 (some s))
+      | _ => none
+  | "kx" =>
+      match ps with
+      | [x, t2] => coneCard t2 (fun tana => mkCone x 0 0 tana 1 0 0 none)
+      | [x, t2, s] => coneCard t2 (fun tana => mkCone x 0 0 tana 1 0 0 (some s))
+      | _ => none
+  | "ky" =>
+      match ps with
+      | [y, t2] => coneCard t2 (fun tana => mkCone 0 y 0 tana 0 1 0 none)
+      | [y, t2, s] => coneCard t2 (fun tana => mkCone 0 y 0 tana 0 1 0 (some s))
+      | _ => none
+  | "kz" =>
+      match ps with
+      | [z, t2] => coneCard t2 (fun tana => mkCone 0 0 z tana 0 0 1 none)
+      | [z, t2, s] => coneCard t2 (fun tana => mkCone 0 0 z tana 0 0 1 (some s))
+      | _ => none
+  | "sq" =>
+      match ps with
+      | [a, b, c, d, e, f, g, x, y, z] =>
+          some { kind := .sq, pt := V3.zero, ax := V3.zero, compl := [a, b, c, d, e, f, g, x, y, z] }
+      | _ => none
+  | "gq" =>
+      match ps with
+      | [a, b, c, d, e, f, g, h, j, k] =>
+          some { kind := .gq, pt := V3.zero, ax := V3.zero, compl := [a, b, c, d, e, f, g, h, j, k] }
+      | _ => none
+  | "tx" =>
+      match ps with
+      | [x, y, z, r1, r2] => some (mkTorus x y z 1 0 0 r1 r2 r2)
+      | [x, y, z, r1, r2, r3] => some (mkTorus x y z 1 0 0 r1 r2 r3)
+      | _ => none
+  | "ty" =>
+      match ps with
+      | [x, y, z, r1, r2] => some (mkTorus x y z 0 1 0 r1 r2 r2)
+      | [x, y, z, r1, r2, r3] => some (mkTorus x y z 0 1 0 r1 r2 r3)
+      | _ => none
+  | "tz" =>
+      match ps with
+      | [x, y, z, r1, r2] => some (mkTorus x y z 0 0 1 r1 r2 r2)
+      | [x, y, z, r1, r2, r3] => some (mkTorus x y z 0 0 1 r1 r2 r3)
+      | _ => none
+  | "c" =>
+      match ps with
+      | [x, y, z, r, a, b, c] => some (mkCyl x y z r a b c)          -- generic forms used by macrobody facets
+      | _ => none
+  | "k" =>
+      match ps with
+      | [x, y, z, tana, a, b, c] => some (mkCone x y z tana a b c none)
+      | _ => none
+  | "x" => cadAxisym 0 ps
+  | "y" => cadAxisym 1 ps
+  | "z" => cadAxisym 2 ps
+  | _ => none
 
 /-- the table `N_PARAMS` of `normalize_surface` (plus the generic forms `c`, `k` produced for macrobody facets):
 the parameter counts each mnemonic accepts; an unknown mnemonic has no entry -/
